@@ -27,6 +27,8 @@ ASSUMPTIONS = [
     "all steps of one worker share one PYTHONHASHSEED",
 ]
 
+BRIEF_KEYS = ("cause", "label", "first_diverging_file")
+
 OPTS_FOR_HISTORY = [
     "upem", "width", "ascender", "descender", "linegap", "version_major", "family", "reuse_tolerance",
     "keep_glyph_names", "clip_to_viewbox", "clipbox_quantization", "pretty_print", "transform",
